@@ -54,7 +54,7 @@ class C15(pw.P21Check):
         plan["applied"] = info
         files = {"twin.p21": text}
         if cm is not None:
-            files["bad.p21"] = pm.render(pm.file_lines(cm["header"], cm["insts"]), rn["seps"], rn.get("eol", "\n"))
+            files["bad.p21"] = pm.render(pm.file_lines(cm["header"], cm["insts"]), rn["seps"], rn.get("eol", "\n"), rn.get("spell"))
         plan["files"] = files
         return plan
 
